@@ -179,10 +179,10 @@ def impl_send(kind, cmp, wevs, pkts):
     return res, bytes(fs.wire), st.closed, fs.sent_lens, spy
 
 
-def impl_recvall(kind, revs, wire, limit=10**6):
+def impl_recvall(kind, revs, wire, limit=10**6, cmp_r=True):
     fs = FakeSock(revs=revs, avail=wire)
     st = make_stream(kind, fs)
-    ch = Channel(st)
+    ch = Channel(st, compress=cmp_r)
     spy = ZSpy()
     old_z, old_os = chmod.zlib, stmod.os
     chmod.zlib = spy
@@ -235,7 +235,7 @@ def run_cases(ctx, model, cases):
             w = w[:cs["cut"]]
         if cs.get("corrupt") is not None and w:
             i, v = cs["corrupt"]; i %= len(w); w = w[:i] + bytes([v]) + w[i + 1:]
-        got, end, rclosed, rspy = impl_recvall(kind if not cs.get("rkind") else cs["rkind"], [list(e) for e in cs["revs"]], w)
+        got, end, rclosed, rspy = impl_recvall(kind if not cs.get("rkind") else cs["rkind"], [list(e) for e in cs["revs"]], w, cmp_r=cs.get("cmp_r", True))
         rk = cs.get("rkind") or kind
         tolerant = rk == "sock"
         fault_r = any(e[0] in (3, 4) for e in cs["revs"]) or (not tolerant and any(e[0] in (1, 2) for e in cs["revs"]))
@@ -256,7 +256,7 @@ def run_cases(ctx, model, cases):
                 want = sum(1 for b in spy.bounds if b <= cs["cut"])
                 if len(got) != want:
                     ctx.violation("recv-cut-wrong-count:" + rk, cs, observed=len(got), expected=want, what="a cut stream did not deliver exactly the packets wholly before the cut")
-        key = (kind, rk, cs["cmp_s"], tuple(len(p) for p in pkts), len(cs["wevs"]), len(cs["revs"]), cs.get("cut"), cs.get("corrupt"))
+        key = (kind, rk, cs["cmp_s"], cs.get("cmp_r", True), tuple(len(p) for p in pkts), len(cs["wevs"]), len(cs["revs"]), cs.get("cut"), cs.get("corrupt"))
         ctx.case(key + (tuple(map(tuple, cs["revs"][:6])),), nontrivial=bool(pkts) and (bool(cs["revs"]) or bool(cs["wevs"]) or cs.get("cut") is not None),
                  sample={"kind": kind, "sizes": [len(p) for p in pkts], "compress": cs["cmp_s"], "wevs": cs["wevs"][:4], "revs": cs["revs"][:4],
                          "cut": cs.get("cut"), "received": len(got), "end": end})
@@ -330,7 +330,7 @@ def gen_case(r, big):
     sizes = [r.choice(SIZES if big else SIZES[:11]) if r.random() < 0.8 else r.randint(0, 9000) for _ in range(n)]
     pkts = [payload(r, s) for s in sizes]
     cs = {"kind": kind, "cmp_s": r.random() < 0.6, "pkts": pkts, "wevs": gen_wevs(r), "revs": gen_revs(r, sum(sizes)), "cut": None, "corrupt": None,
-          "rkind": r.choice(["sock", "sock", "pipe"])}
+          "rkind": r.choice(["sock", "sock", "pipe"]), "cmp_r": r.random() < 0.6}
     c = r.random()
     if c < 0.25:
         cs["cut"] = r.randint(0, sum(sizes) + 6 * n + 2)
@@ -361,7 +361,7 @@ def run(ctx):
     for k in range(0, 30):
         cases.append({"kind": "sock", "rkind": "sock", "cmp_s": False, "pkts": [b"abcdefgh", b"0123456789"], "wevs": [], "revs": [[0, 3]] * 20, "cut": k, "corrupt": None})
     for s in SIZES:
-        cases.append({"kind": "sock", "rkind": "pipe", "cmp_s": True, "pkts": [payload(r, s)], "wevs": [], "revs": [], "cut": None, "corrupt": None})
+        cases.append({"kind": "sock", "rkind": "pipe", "cmp_s": True, "cmp_r": s % 2 == 0, "pkts": [payload(r, s)], "wevs": [], "revs": [], "cut": None, "corrupt": None})
     for i in range(n):
         cases.append(gen_case(r, big=(i % 6 == 0)))
     # JSON-able cases for replay: keep bytes as hex
